@@ -400,6 +400,15 @@ Proof.
   intros [K|K]; discriminate.
   intros [K|K]; discriminate.
 Qed.
+(* the teardown that follows a rejected authentication, inside the same handler run: whatever the monitor state *)
+Lemma terminate_T : forall acc, T (Inv acc) (fun m => terminate (upd (set_live false) m)) (Inv acc).
+Proof.
+  intros acc mn0 m (mx & Hm & [[g1 g2 g3 g4 g5] a1 a2]). unfold terminate, W. cbn [upd emit ms mo mn mfree mq].
+  apply Wl_plain; [reflexivity|]. apply Wl_plain; [reflexivity|]. exists mx. split; [exact Hm|].
+  destruct m as [s n0 fr q o]; destruct s; cbn in *. destruct (in_net ph) eqn:E; cbn.
+  all: constructor; [constructor|..]; cbn; auto; try discriminate.
+  all: try (intros [K|K]; discriminate).
+Qed.
 Lemma Inv_dead_reset : forall acc s mn, live s = false -> Inv acc s mn -> Inv acc s mon0.
 Proof.
   intros acc s mn L [[g1 g2 g3 g4 g5] a1 a2].
@@ -416,7 +425,7 @@ Proof. intros acc f mn0 m Hf H. eapply W_upd; [exact H|]. intros mn K. eapply In
 Lemma handle_frame_Inv : forall v i f acc, vrep v = true ->
   T (Inv acc) (handle_frame v i f) (Inv acc).
 Proof.
-  intros v i f acc Hv mn0 m H. unfold handle_frame. destruct f as [c|x|c|c| | | | | | | | | | | ]; auto.
+  intros v i f acc Hv mn0 m H. unfold handle_frame. destruct f as [c|x|c|c| | | | | | | | | | | | | ]; auto.
   - (* LCP control frame *) apply lcp_apply_Inv; auto. apply fsm_input_ok.
   - (* LCP codes handled by the dispatcher / option handler *)
     destruct x; auto.
@@ -448,6 +457,15 @@ Proof.
     destruct (in_net (ph (ms m))) eqn:E; auto. destruct (fs (ip6cp (ms m))); auto.
     apply W_emit_svc; auto. intros mn K. apply (gi_net _ _ (inv_gi _ _ _ K) E).
   - (* unknown protocol *) apply W_emit_plain; auto.
+  - (* DHCPv6 SOLICIT over PPP *)
+    destruct (in_net (ph (ms m))) eqn:E; auto. destruct (fs (ip6cp (ms m))); auto. destruct (ip6cp_open (ms m)); auto.
+    apply W_emit_svc; auto. intros mn K. apply (gi_net _ _ (inv_gi _ _ _ K) E).
+  - (* DHCPv6 REQUEST over PPP *)
+    destruct (in_net (ph (ms m))) eqn:E; auto. destruct (fs (ip6cp (ms m))); auto. destruct (ip6cp_open (ms m)); auto.
+    assert (G : forall mm, ms mm = ms m -> forall mn, Inv acc (ms mm) mn -> mok mn = true).
+    { intros mm Em mn K. rewrite Em in K. apply (gi_net _ _ (inv_gi _ _ _ K) E). }
+    apply W_emit_svc; [reflexivity|apply G; destruct m; reflexivity|].
+    apply W_emit_svc; [reflexivity|apply G; reflexivity|exact H].
 Qed.
 
 Lemma handle_timer_Inv : forall v i t acc, vrep v = true ->
